@@ -185,6 +185,10 @@ func (m *Model) Signature() string {
 		s += r.String() + ","
 	}
 	s += "]"
+	if m.Flat {
+		r1 := m.Types["doc"]["r1"]
+		return "flat:" + s + "|r1=" + r1.Rewrite.String()
+	}
 	// For the two plain "r1 from parent" shapes every (r1 definition, parent restriction) pair is its own
 	// class: a tuple-to-userset whose parents have different types and depths is a code path of its own.
 	if sh := d.Rewrite.String(); sh == "r1 from parent" || (sh == "(this or r1 from parent)" && len(d.Restr) == 1 && d.Restr[0] == (Restr{Type: "user"})) {
@@ -352,4 +356,59 @@ func Subsets(p []Tuple, k int, fn func([]Tuple)) {
 		}
 	}
 	rec(0)
+}
+
+// FlatUniverse is the single-object universe of the flat deep family.
+func FlatUniverse() Universe {
+	return Universe{"user": {"user:a", "user:b"}, "group": {}, "doc": {"doc:1"}}
+}
+
+// FlatFamily enumerates nested set-operator models over ONE object: three levels of operators (r0 has two,
+// r1 optionally one more through a computed relation) whose leaves are direct relations with and without
+// a typed wildcard. It exists for the behaviours that only show when the result of one operator (a
+// wildcard with explicitly excluded subjects, an intersection of two wildcards, ...) feeds another
+// operator; worlds need up to four tuples on the same object, which the main family cannot afford.
+// The type and relation names are those of Family, so every harness that takes a *Model works on it.
+func FlatFamily() []*Model {
+	ops := []Kind{KUnion, KInter, KDiff}
+	uw := []Restr{{Type: "user"}, {Type: "user", Wildcard: true}}
+	r1s := []relChoice{
+		{This(), uw},
+		{Bin(KDiff, This(), Comp("aux2")), uw},
+		{Bin(KInter, This(), Comp("aux2")), uw},
+	}
+	var out []*Model
+	for _, r1 := range r1s {
+		for _, k := range ops {
+			for _, k2 := range ops {
+				shapes := []*Expr{
+					Bin(k, This(), Bin(k2, Comp("r1"), Comp("aux"))),
+					Bin(k, Bin(k2, Comp("r1"), Comp("aux")), This()),
+					Bin(k, Bin(k2, This(), Comp("r1")), Comp("aux")),
+					Bin(k, Comp("aux"), Bin(k2, Comp("r1"), This())),
+				}
+				for _, e := range shapes {
+					out = append(out, &Model{Flat: true, Types: map[string]map[string]*RelDef{
+						"user":  {},
+						"group": {"member": {This(), []Restr{{Type: "user"}}}, "banned": {This(), []Restr{{Type: "user"}}}, "r1": {This(), []Restr{{Type: "user"}}}},
+						"doc": {"parent": {This(), []Restr{{Type: "doc"}}}, "r1": {r1.e, r1.r}, "r0": {e, []Restr{{Type: "user"}}},
+							"aux": {This(), uw}, "aux2": {This(), []Restr{{Type: "user"}}}},
+					}})
+				}
+			}
+		}
+	}
+	return out
+}
+
+// EveryNth returns every n-th model starting at offset (mod n).
+func EveryNth(ms []*Model, n, offset int) []*Model {
+	if n <= 1 {
+		return ms
+	}
+	var out []*Model
+	for i := ((offset % n) + n) % n; i < len(ms); i += n {
+		out = append(out, ms[i])
+	}
+	return out
 }
